@@ -298,6 +298,10 @@ func Run(c *hx.Ctx) {
 		runScript(c, b, strings.Split(c.Args[1], ","))
 		return
 	}
+	if len(c.Args) >= 1 && c.Args[0] == "e2e" { // only the end-to-end kind (4 args: one given plan)
+		runE2E(c, hx.NewRng(c.Seed^0xe2e0e2e))
+		return
+	}
 	rng := c.Rng.Fork()
 	// 1. id generators, driven directly through their exported pointer argument
 	for _, p := range []string{"bolt", "boltv2", "dubbo", "thrift", "tars"} {
@@ -377,4 +381,6 @@ func Run(c *hx.Ctx) {
 		}
 		runScript(c, base, ops)
 	}
+	// 4. end to end through the real proxy core (e2e.go)
+	runE2E(c, hx.NewRng(c.Seed^0xe2e0e2e))
 }
